@@ -319,6 +319,14 @@ def sharing_probes(rng):
     P.append(("function f(p) { p = %s\n return p }\nBEGIN { a = %s\n r = f(a)\n print a, r }" % (y, x), None, "%s %s\n" % (px, py_), ("scalar_copy",), None))
     P.append(("function f(p) { p++\n return p }\nBEGIN { a = 1\n r = f(a)\n print a, r }", None, "1 2\n", ("scalar_copy",), None))
     P.append(("{ c = $.k\n c = %s\n d = $.l[0]\n d++ }" % y, json.dumps({"k": 1, "l": [1, 2]}), None, ("scalar_copy", "doc"), None))
+    # a missing member passed as an argument, returned, or copied into a variable is a plain null there:
+    # assigning to the parameter / variable never creates the member in the document
+    DOCM = json.dumps({"a": {}, "n": 1, "l": [1]})
+    P.append(("function def(x, d) { if (x == null) { x = d }\n return x }\n{ print def($.a.limit, %s) }" % y, DOCM, None, ("scalar_copy", "doc", "missing_arg"), None))
+    P.append(("function f(p) { p = %s\n q = p }\n{ f($.nope)\n f($.a.deep.er)\n f($[5])\n f($.a[2])\n f($.l[3]) }" % x, DOCM, None, ("scalar_copy", "doc", "missing_arg"), None))
+    P.append(("function f(p) { p++\n p += 2\n return p }\n{ r = f($.a.cnt)\n t = f($.n)\n u = f($.l[7]) }", DOCM, None, ("scalar_copy", "doc", "missing_arg"), None))
+    P.append(("function f(p, q) { q = %s\n return q }\n{ f(1)\n f($.a.b, $.a.c) }" % x, DOCM, None, ("scalar_copy", "doc", "missing_arg"), None))
+    P.append(("function g(p) { return p }\n{ r = g($.a.none)\n r = %s\n v = $.a.other\n v = %s\n w = [$.zz]\n w[0] = 1 }" % (x, y), DOCM, None, ("scalar_copy", "doc", "missing_arg"), None))
     # containers are shared: element stores
     P.append(("BEGIN { a = %s\n b = a\n b[%d] = %s\n print a, b }" % (la, i, x), None, "%s %s\n" % (pa(set_(arr, i, X)), pa(set_(arr, i, X))), ("shared_store",), None))
     P.append(("BEGIN { a = %s\n b = a\n a[%d] = %s\n print a, b }" % (la, i, x), None, "%s %s\n" % (pa(set_(arr, i, X)), pa(set_(arr, i, X))), ("shared_store",), None))
